@@ -1287,13 +1287,33 @@ var vtACSNames = map[byte]rune{
 func (t *tScreen) buildAcsMap() {
 	acsstr := t.ti.AltChars
 	t.acs = make(map[rune]string)
+	// These strings are written as part of the cell text, not through
+	// TPuts, so any padding in smacs/rmacs (e.g. vt220 "\x1b(0$<2>") has
+	// to be dropped here or it would be displayed literally.
+	enter := stripPadding(t.ti.EnterAcs)
+	exit := stripPadding(t.ti.ExitAcs)
 	for len(acsstr) > 2 {
 		srcv := acsstr[0]
 		dstv := string(acsstr[1])
 		if r, ok := vtACSNames[srcv]; ok {
-			t.acs[r] = t.ti.EnterAcs + dstv + t.ti.ExitAcs
+			t.acs[r] = enter + dstv + exit
 		}
 		acsstr = acsstr[2:]
+	}
+}
+
+// stripPadding removes terminfo padding specifications ($<...>) from s.
+func stripPadding(s string) string {
+	for {
+		beg := strings.Index(s, "$<")
+		if beg < 0 {
+			return s
+		}
+		end := strings.Index(s[beg:], ">")
+		if end < 0 {
+			return s
+		}
+		s = s[:beg] + s[beg+end+1:]
 	}
 }
 
